@@ -6,7 +6,7 @@ For each /verif/seeded/<PROP>-<name>/patch.diff: apply it to /repo's working tre
 --also), record exit code + reported signatures, and undo it straight away
 (git -C /repo checkout -- .).  Writes selftest/seeded_results.json.
 
-  selftest/run_seeded.py [--only C19] [--marked] [--tier quick] [--also C01,C03] [--revert <commit>]
+  selftest/run_seeded.py [--only C19] [--marked <round>] [--tier quick] [--also C01,C03] [--revert <commit>]
 """
 import json
 import os
@@ -16,7 +16,7 @@ import sys
 import time
 
 VERIF = os.path.dirname(os.path.dirname(os.path.abspath(__file__)))
-REPO = "/repo"
+REPO = os.environ.get("VERIF_REPO", "/repo")
 
 
 def sh(cmd, **kw):
@@ -52,7 +52,8 @@ def main():
             only = args[i + 1]
             i += 1
         elif args[i] == "--marked":
-            marked = True
+            marked = args[i + 1]  # round number in the .round marker file
+            i += 1
         elif args[i] == "--reverts":
             sdir = os.path.join("selftest", "reverts")
         elif args[i] == "--tier":
@@ -72,8 +73,10 @@ def main():
     for d in sorted(os.listdir(os.path.join(VERIF, sdir))):
         if only and not d.startswith(only):
             continue
-        if marked and not os.path.exists(os.path.join(VERIF, sdir, d, ".round")):
-            continue
+        if marked:
+            mp = os.path.join(VERIF, sdir, d, ".round")
+            if not os.path.exists(mp) or open(mp).read().strip() != str(marked):
+                continue
         patch = os.path.join(VERIF, sdir, d, "patch.diff")
         if not os.path.exists(patch):
             continue
